@@ -32,6 +32,13 @@ def run(tier):
             while cfg is None or not any(arggen.is_cont(a["kind"]) for a in cfg["args"]) or (t % 4 != 3 and not cfg["hcons"] and tries < 40):
                 cfg = g.cfg(nargs=g.r.randint(3, 7), constraints=True, allow_pos=True)      # three of four threads: with a handler constraint
                 tries += 1
+            # a pattern check given as string in every configuration that has a plain string argument (pattern strings are
+            # made unique per set-up by the driver: state keyed by the pattern text would be shared between the threads)
+            for a in cfg["args"]:
+                if a["kind"] in ("str", "vecstr") and not a["checks"] and not a["formats"] and a.get("vm", "req") == "req":
+                    pid = g.r.randint(1, 4)
+                    a["checks"].append({"k": "pattern", "a": pid, "b": 0, "vals": [], "pat": arggen.T(arggen.PATTERNS[pid])})
+                    break
             # different list separators per thread
             for a in cfg["args"]:
                 if arggen.is_cont(a["kind"]):
